@@ -378,7 +378,13 @@ fn p_streams_blocked<const N: usize>() {
     let (arr, len) = any_input::<N>();
     let dir = if kani::any() { Dir::Bi } else { Dir::Uni };
     let r = ref_varints::<N, 1>(&arr, len);
-    if let Some(f) = verdict(streams_blocked_frame_with_dir(dir)(&arr[..len]), len, r.map(|x| x.1)) {
+    // RFC 9000 §19.14: values above 2^60-1 are an error, as for MAX_STREAMS (unbounded on the pinned tree:
+    // genuine defect, fixed in /repo)
+    let expect = match r {
+        Some((v, end)) if v[0] <= MAX_STREAMS_LIMIT => Some(end),
+        _ => None,
+    };
+    if let Some(f) = verdict(streams_blocked_frame_with_dir(dir)(&arr[..len]), len, expect) {
         let v = unsafe { VarInt::from_u64_unchecked(r.unwrap().0[0]) };
         assert!(f == StreamsBlockedFrame::with(dir, v));
         kani::cover!(dir == Dir::Bi && len == 8);
